@@ -86,6 +86,16 @@ func runC06(c *Ctx) []Obligation {
 	out = append(out, c.commitIDFields(P), c.transientFresh(P), c.commitInfoHashReads(P),
 		c.whoMayCall(P, "multistore-commit.callers", fnRSCommit, []string{`\(\*baseapp\.BaseApp\)\.Commit`, `\(\*baseapp\.BaseApp\)\.(InitChain|initFromMainStore)`}, "the multistore is committed only by the ABCI Commit"),
 	)
+	// after a successful save the tree has moved on: its version is the saved one, the version is listed,
+	// the working tree is a fresh clone (the saved nodes are never written again), the last-saved tree is
+	// that version, and the orphan set of the next version starts empty
+	out = append(out, c.Rows([]Row{
+		{Prop: P, ID: "savever.success.version-bumped", Fn: "(*store/iavl.MutableTree).SaveVersion", Barrier: []string{`store:^tree\.ImmutableTree\.version = \(tree\.ImmutableTree\.version \+ 1\)$`}, Target: Success(), Why: "every successful save (new or already-saved-and-equal) leaves the tree at the saved version"},
+		{Prop: P, ID: "savever.success.working-tree-recloned", Fn: "(*store/iavl.MutableTree).SaveVersion", Barrier: []string{`store:^tree\.ImmutableTree = \(\*store/iavl\.ImmutableTree\)\.clone\(tree\.ImmutableTree\)$`}, Target: Success(), Why: "the working tree continues on a clone"},
+		{Prop: P, ID: "savever.success.last-saved-set", Fn: "(*store/iavl.MutableTree).SaveVersion", Barrier: []string{`store:^tree\.lastSaved = \(\*store/iavl\.ImmutableTree\)\.clone\(tree\.ImmutableTree\)$`}, Target: Success(), Why: "the last-saved tree is the version just saved"},
+		{Prop: P, ID: "savever.success.orphans-reset", Fn: "(*store/iavl.MutableTree).SaveVersion", Barrier: []string{`store:^tree\.orphans = makemap$`}, Target: Success(), Why: "orphans of the saved version are not carried into the next"},
+		{Prop: P, ID: "savever.new-version-listed", Fn: "(*store/iavl.MutableTree).SaveVersion", Assume: []Lit{F(`^tree\.versions\[\(tree\.ImmutableTree\.version \+ 1\)\]$`)}, Barrier: []string{`mapset:^tree\.versions\[\(tree\.ImmutableTree\.version \+ 1\)\] = true$`}, Target: Success(), Why: "a newly saved version becomes an available version"},
+	})...)
 	return out
 }
 
